@@ -277,7 +277,13 @@ def r6_table_positions_are_stream_positions(cx):
               "header.%s is the stream position taken immediately before the table is written (derives from %s)" % (name, sorted(callee_str(b.term(c)).split("::")[-1] for c in calls) + [str(x) for x in others]))
 
 
+def r7_positions_on_the_buffered_stream(cx):
+    import c01
+    c01.r19_positions_taken_on_the_buffered_stream(cx, rule="R7")
+
+
 RULES = [
+    ("R7", r7_positions_on_the_buffered_stream, 1),
     ("R6", r6_table_positions_are_stream_positions, 2),
     ("R1", r1_address_table, 7),
     ("R2", r2_rebasing, 3),
